@@ -12,7 +12,12 @@
        for the prefix plugin (C08: no panic, disjoint across clients), alloc4_concurrent_distinct for
        concurrent Allocate calls on the IPv4 allocator (C04), file_concurrent for requests handled
        while the lease file is refreshed (C10: each is answered from the last content that loaded at
-       its point of the serial order).
+       its point of the serial order).  lib/ConcRW.v is the same reduction for a reader/writer lock
+       (sync.RWMutex, the file plugin): readers' critical sections overlap one another at any
+       granularity and do not write, a writer excludes everybody; rw_serialisable: every complete
+       schedule equals the sections run one at a time in the order they were left; rw_exclusion;
+       rw_atomic_serialisable / file_concurrent_rw: the file plugin's look-ups (RLock) overlapping
+       while the watcher reloads (Lock) are each answered from the last content that loaded.
    (2) That the code HAS this shape is computed from /repo's sources on every run: go2v skeleton
        reads, for every function touching lock-protected state (the two allocators, range.Handler4,
        prefix.Handle, the file plugin's handlers and loader) and for HandleMsg4/6 with respect to
@@ -28,7 +33,7 @@
    (3) The Go memory model (a data race needs two unsynchronised accesses), goroutine scheduling
        and sync.Mutex/RWMutex/Pool are not modelled: the harness runs concurrent datagrams through
        HandleMsg4/6 with full chains under the Go race detector on every run. *)
-From Verif Require Import Base Msg4 Msg6 Setup FilePlugin FileRun FileProofs RangePlugin RangeProofs RangeTheorems RangeExamples Conc ConcProofs ConcRange ConcPrefix ConcAlloc ConcFile ConcExamples Skel Skeleton SkelProofs SkelGen.
+From Verif Require Import Base Msg4 Msg6 Setup FilePlugin FileRun FileProofs RangePlugin RangeProofs RangeTheorems RangeExamples Conc ConcProofs ConcRange ConcPrefix ConcAlloc ConcFile ConcRW ConcRWProofs ConcExamples Skel Skeleton SkelProofs SkelGen.
 From Coq Require Import Permutation.
 
 Theorem conc_serialisable :
@@ -276,6 +281,93 @@ Theorem file_concurrent :
   r = Some (snd (fstep O0 (last_good O0 v6 t0 (firstn k hist)) o)))).
 Proof. exact (@ConcFile.file_concurrent). Qed.
 Print Assumptions file_concurrent.
+
+Theorem rw_serialisable :
+  forall (St Lo Re : Type) (ops : list (rwop St Lo Re)) (s0 : St),
+  (forall (t : nat) (o : rwop St Lo Re),
+  nth_error ops t = Some o ->
+  w_kind St Lo Re o = Reader ->
+  forall f : St * Lo -> St * Lo,
+  In f (w_crit St Lo Re o) -> forall (s : St) (l : Lo), fst (f (s, l)) = s) ->
+  forall sched : list nat,
+  rall_done St Lo Re ops (rrun St Lo Re ops s0 sched) ->
+  exists sigma : list nat,
+  Permutation.Permutation sigma (seq 0 (length ops)) /\
+  rsh St Lo Re (rrun St Lo Re ops s0 sched) = fst (rserial St Lo Re ops sigma s0) /\
+  rlock St Lo Re (rrun St Lo Re ops s0 sched) = LR [] /\
+  (forall (t : nat) (r : Re),
+  nth_error (rthr St Lo Re (rrun St Lo Re ops s0 sched)) t = Some (RDone St Lo Re r) ->
+  In (t, r) (snd (rserial St Lo Re ops sigma s0))).
+Proof. exact (@ConcRW.rw_serialisable). Qed.
+Print Assumptions rw_serialisable.
+
+Theorem rw_exclusion :
+  forall (St Lo Re : Type) (ops : list (rwop St Lo Re)) (s0 : St),
+  (forall (t : nat) (o : rwop St Lo Re),
+  nth_error ops t = Some o ->
+  w_kind St Lo Re o = Reader ->
+  forall f : St * Lo -> St * Lo,
+  In f (w_crit St Lo Re o) -> forall (s : St) (l : Lo), fst (f (s, l)) = s) ->
+  forall sched : list nat,
+  match rlock St Lo Re (rrun St Lo Re ops s0 sched) with
+  | LR rs =>
+  forall (t : nat) (rest : list (St * Lo -> St * Lo)) (l : Lo),
+  nth_error (rthr St Lo Re (rrun St Lo Re ops s0 sched)) t =
+  Some (RRunning St Lo Re rest l) ->
+  In t rs /\
+  (exists o : rwop St Lo Re, nth_error ops t = Some o /\ w_kind St Lo Re o = Reader)
+  | LW h =>
+  forall (t : nat) (rest : list (St * Lo -> St * Lo)) (l : Lo),
+  nth_error (rthr St Lo Re (rrun St Lo Re ops s0 sched)) t =
+  Some (RRunning St Lo Re rest l) -> t = h
+  end.
+Proof. exact (@ConcRW.rw_exclusion). Qed.
+Print Assumptions rw_exclusion.
+
+Theorem rw_atomic_serialisable :
+  forall (St A R : Type) (f : St -> A -> St * R) (is_reader : A -> bool),
+  (forall (a : A) (s : St), is_reader a = true -> fst (f s a) = s) ->
+  forall (l : list A) (s0 : St) (sched : list nat),
+  rall_done St (option R) (option R) (map (rwaop St A R f is_reader) l)
+  (rrun St (option R) (option R) (map (rwaop St A R f is_reader) l) s0 sched) ->
+  exists sigma : list nat,
+  Permutation.Permutation sigma (seq 0 (length l)) /\
+  (let c := rrun St (option R) (option R) (map (rwaop St A R f is_reader) l) s0 sched in
+  rsh St (option R) (option R) c = fst (srun St A R f s0 (pick A l sigma)) /\
+  rlock St (option R) (option R) c = LR [] /\
+  (forall (t : nat) (r : option R),
+  nth_error (rthr St (option R) (option R) c) t = Some (RDone St (option R) (option R) r) ->
+  exists k : nat,
+  nth_error sigma k = Some t /\
+  nth_error (pick A l sigma) k = nth_error l t /\
+  r = nth_error (snd (srun St A R f s0 (pick A l sigma))) k /\ r <> None)).
+Proof. exact (@ConcRWProofs.rw_atomic_serialisable). Qed.
+Print Assumptions rw_atomic_serialisable.
+
+Theorem file_concurrent_rw :
+  forall (O0 : oracles) (v6 : bool) (t0 : ftable) (ops : list fop),
+  Forall (same_proto v6) ops ->
+  forall sched : list nat,
+  rall_done ftable (option fobs) (option fobs)
+  (map (rwaop ftable fop fobs (fstep O0) fop_reader) ops)
+  (rrun ftable (option fobs) (option fobs)
+  (map (rwaop ftable fop fobs (fstep O0) fop_reader) ops) t0 sched) ->
+  exists sigma : list nat,
+  Permutation.Permutation sigma (seq 0 (length ops)) /\
+  (let hist := pick fop ops sigma in
+  let c :=
+  rrun ftable (option fobs) (option fobs)
+  (map (rwaop ftable fop fobs (fstep O0) fop_reader) ops) t0 sched in
+  rsh ftable (option fobs) (option fobs) c = last_good O0 v6 t0 hist /\
+  (forall (t : nat) (r : option fobs),
+  nth_error (rthr ftable (option fobs) (option fobs) c) t =
+  Some (RDone ftable (option fobs) (option fobs) r) ->
+  exists (k : nat) (o : fop),
+  nth_error sigma k = Some t /\
+  nth_error ops t = Some o /\
+  r = Some (snd (fstep O0 (last_good O0 v6 t0 (firstn k hist)) o)))).
+Proof. exact (@ConcRWProofs.file_concurrent_rw). Qed.
+Print Assumptions file_concurrent_rw.
 
 Theorem checker_sound :
   forall (s : sk) (tr : list ev) (o : outcome),
